@@ -16,7 +16,7 @@ ENGINE = 'E3-explicit-state-bfs'
 TECHNIQUE = ('explicit-state BFS over operation histories replayed on the real object, deduplicated by content + '
              'representation fingerprint, list-of-rows reference model checked through every observer in every state')
 RULE = ('initial arrays: lengths {(2,),(1,2),(2,2),(3,1,2)} x constructors {nested, flat+lengths, copy=False} x dtypes '
-        '{int64,float64}; alphabet: element / row / row-slice / (row,col-slice) / (slice,slice) / (slice|row list, stepped col-slice with steps 2,-1,-2) / paired-list / mask assignment, '
+        '{int64,float64}; alphabet: element / row / row-slice / (row,col-slice) / (slice,slice) / (slice|row list, stepped col-slice with steps 2,-1,-2) / paired-list / mask assignment / masked augmented assignment (also of an empty selection), '
         'append (rows | RaggedArray | single row), augmented arithmetic (rebinding), plus non-mutating operators checked in '
         'every state; BFS depth 3 (T: 4); state key = (rows, dtype, representation fingerprint); non-trivial = state at depth>=1 '
         'whose representation fingerprint differs from its initial array')
@@ -69,6 +69,8 @@ def alphabet(rows):
     ops.append(('mask_gt', 50, 44))
     ops.append(('mask_gt', 10 ** 6, 45))        # all-False mask: must be a no-op
     ops.append(('mask_le', 10 ** 6, 46))        # all-True
+    ops.append(('mask_aug', 50, 7))             # a[a > t] += d : read-modify-write of a selection
+    ops.append(('mask_aug', 10 ** 6, 7))        # ... of an empty selection: must be a no-op
     ops.append(('append_rows', [[31, 32], [33]]))
     ops.append(('append_row', [34]))
     ops.append(('append_ra', [[35], [36, 37]]))
@@ -107,6 +109,9 @@ def apply_model(rows, op):
     elif k == 'mask_le':
         for r in rows:
             r[r <= op[1]] = op[2]
+    elif k == 'mask_aug':
+        for r in rows:
+            r[r > op[1]] += op[2]
     elif k in ('append_rows', 'append_ra'):
         rows += [np.array(r, dtype=rows[0].dtype) for r in op[1]]
     elif k == 'append_row':
@@ -155,6 +160,8 @@ def apply_real(A, op):
         A[A > op[1]] = op[2]
     elif k == 'mask_le':
         A[A <= op[1]] = op[2]
+    elif k == 'mask_aug':
+        A[A > op[1]] += op[2]
     elif k == 'append_rows':
         A.append([np.array(r, dtype=A.dtype) for r in op[1]])
     elif k == 'append_row':
